@@ -125,7 +125,7 @@ def run_batch(prop, tier, base_seed, nruns=None, workers=None, wall_cap=None, qu
     if scale != 1:
         nruns = max(50, int(nruns * scale))
     workers = workers or min(16, os.cpu_count() or 1)
-    wall_cap = wall_cap or (75 if tier == "quick" else 900)
+    wall_cap = wall_cap or float(os.environ.get("VERIF_WALL_CAP", "0") or 0) or (75 if tier == "quick" else 900)
     chunk = spec.chunk or max(1, min(50, nruns // (workers * 4) or 1))
     chunks = [list(range(i, min(i + chunk, nruns))) for i in range(0, nruns, chunk)]
     t0 = time.time()
